@@ -338,6 +338,19 @@ func checkU5(c *Ctx, p *Prog, fn *ssa.Function, predCalls []*ssa.Call) {
 				} else {
 					if k, isK := constDuration(ret.Results[0]); !isK || k != 0 {
 						problems = append(problems, "the helper returns "+p.Sym(ret.Results[0]).String()+" instead of the result of the search")
+					} else {
+						emptyRange := false
+						for _, e := range DomEdges(b) {
+							if p.isZeroTestEdge(e, 0) {
+								iff := e.From.Instrs[len(e.From.Instrs)-1].(*ssa.If)
+								if cm := p.NormCmp(iff.Cond, e.Succ == 0); cm != nil && (deepStrip(cm.L).V == ssa.Value(maxPar) || deepStrip(cm.R).V == ssa.Value(maxPar)) {
+									emptyRange = true
+								}
+							}
+						}
+						if !emptyRange {
+							problems = append(problems, "0 is returned at "+p.InstrPos(ret)+" without the range having been searched: a quantity that satisfies the predicate is not found")
+						}
 					}
 				}
 			}
@@ -499,6 +512,24 @@ func checkU5(c *Ctx, p *Prog, fn *ssa.Function, predCalls []*ssa.Call) {
 			}
 		} else if k, isK := constDuration(rv); !isK || k != 0 {
 			problems = append(problems, "without a satisfied predicate "+p.Sym(rv).String()+" is returned instead of 0")
+		} else if len(loop) > 0 && loopFn == loop0(loop).Parent() {
+			// "nothing found" is answered after the whole range was searched (or for an empty
+			// range: maximum == 0), not in front of the search for some other reason
+			after := false
+			for _, e := range DomEdges(b) {
+				if loop[e.From] && !loop[e.From.Succs[e.Succ]] {
+					after = true
+				}
+				if p.isZeroTestEdge(e, 0) {
+					iff := e.From.Instrs[len(e.From.Instrs)-1].(*ssa.If)
+					if cm := p.NormCmp(iff.Cond, e.Succ == 0); cm != nil && (deepStrip(cm.L).V == ssa.Value(maxPar) || deepStrip(cm.R).V == ssa.Value(maxPar)) {
+						after = true
+					}
+				}
+			}
+			if !after && !loop[b] {
+				problems = append(problems, "0 is returned at "+p.InstrPos(ret)+" without the range having been searched: a quantity that satisfies the predicate is not found")
+			}
 		}
 	}
 	c.R.Check(len(problems) == 0, "U5", p.FnKey(fn), p.Pos(fn.Pos()), map[bool]string{true: "1..max upward", false: "max..1 downward"}[upward]+"; loop variable under the predicate, 0 otherwise", strings.Join(dedup(problems), "; "))
@@ -1079,4 +1110,11 @@ func (p *Prog) containsFuncForAll(fn *ssa.Function, combos *ssa.Parameter) (*ssa
 		return v
 	}
 	return body, bind
+}
+
+func loop0(loop map[*ssa.BasicBlock]bool) *ssa.BasicBlock {
+	for b := range loop {
+		return b
+	}
+	return nil
 }
